@@ -6,6 +6,7 @@ CHECK = {
         "all durations are whole ticks (tick = 1ns, 1ms or 1s), d <= 40, m <= 60, th <= 12 ticks, at most 3 concurrent readers with at most 4 suspensions each",
         "Resume() is only called by whoever called Suspend() (the clock documents a panic otherwise)",
         "base clock is bb-storage SystemClock on testing/synctest fake time (behind a pass-through wrapper that only counts NewTimer calls and stops handing out live timers after 5000, so that a spinning re-arm loop is reported instead of hanging): time does not advance while a goroutine is runnable, so scheduling latency between a timer firing and the clock handling it is not explored",
+        "scheduling latency between a base timer firing and the clock handling it is explored separately (TestC11SuspendableClockLateTicks) over a hand-written manual base clock whose ticks carry the instant the timer fired and are delivered by the harness, possibly late; there the oracle bounds what the clock may believe by [U(fired), U(handled)]",
         "events at the same instant as a base-timer expiry may be processed in either order; the oracle accepts both",
         "LocalBuildExecutor is driven with fakes: empty build directory, CAS holding only the command, a runner that answers a finished context like a gRPC client stub (status.FromContextError)",
         "buffers handed out by SuspendingBlobAccess.Get are finished exactly once (read to the end / closed / discarded), as the Buffer contract demands",
@@ -14,6 +15,9 @@ CHECK = {
         T("susclock", "TestC11SuspendableClockTimeline",
           {"checks": 30000, "shards": 2, "timeout": 300},
           {"checks": 250000, "shards": 16, "timeout": 1200}),
+        T("susclock", "TestC11SuspendableClockLateTicks",
+          {"checks": 15000, "shards": 2, "timeout": 300},
+          {"checks": 150000, "shards": 16, "timeout": 1200}),
         T("susclock", "TestC11SuspendingDecorators",
           {"checks": 12000, "shards": 2, "timeout": 300},
           {"checks": 80000, "shards": 16, "timeout": 1200}),
